@@ -2866,7 +2866,10 @@ func (db *DB) Export(ctx context.Context, dst io.Writer) (ltx.Pos, error) {
 
 	// Write page frames.
 	var chksum ltx.Checksum
-	lockPgno := ltx.LockPgno(pageSize)
+	var lockPgno uint32
+	if pageSize != 0 { // unknown until the first page has been written
+		lockPgno = ltx.LockPgno(pageSize)
+	}
 	pageData := make([]byte, pageSize)
 	for pgno := uint32(1); pgno <= pageN; pgno++ {
 		// Read from WAL if page exists in offset map. Otherwise read from DB.
